@@ -18,7 +18,8 @@
    attributes semantically (parse_file_header returns ver silently on them). *)
 From AV Require Import Base.Bytes Base.Outcome Base.Utf8 Hash.HashModel Spec.SpecOps Spec.Versions
   Xml.Lexer Xml.Parser Xml.Serializer Xml.LexerProofs Xml.Escape Xml.RoundTripValues Xml.RoundTripAttrs
-  Xml.RoundTripLexer Xml.StrictValidDef Xml.ParserDepth Xml.RoundTripElem Xml.RoundTripFile.
+  Xml.RoundTripLexer Xml.StrictValidDef Xml.ParserDepth Xml.RoundTripElem Xml.RoundTripFile Xml.ParserExamples Xml.RoundTripExamples.
+From AV Require Import Spec.SpecReal Hash.HashRealElement Hash.HashRealAttr Hash.HashRealEnum.
 Open Scope list_scope.
 Open Scope N_scope.
 
@@ -146,3 +147,13 @@ Theorem C01_serialize_fixpoint :
        serialize_file T tab_el tab_at tab_en check_fn float_fmt (p_version st) sa root = Val bs.
 Proof. exact serialize_fixpoint. Qed.
 
+(* [F] non-vacuity on the REAL tables: a concrete tree (the strict load of <AUTOSAR ...><AR-PACKAGES/></AUTOSAR>) is a
+   canonical root, so C01_roundtrip_partial applies to it *)
+Theorem C01_canon_nonvacuous :
+  RootCanon true RT tab_element tab_attr tab_enum accept_all no_float_fmt no_float v_small t_small.
+Proof. exact t_small_canon. Qed.
+
+(* [F] a computed double round trip on the real tables (attributes, entities, mixed content, a comment): load; serialize;
+   load; serialize — both loads strict and silent, the second text byte-identical to the first *)
+Theorem C01_cycle_example : cycle_ok doc_rich = true.
+Proof. exact cycle_rich. Qed.
